@@ -99,6 +99,33 @@ func check(c Case) (kind, what string, classes []string) {
 	if c.Canvas {
 		return checkCanvas(c)
 	}
+	kind, what, classes = checkOnce(c, false)
+	if kind == "" && !c.InPlace && (c.Src.Type == "Paletted" || ev.Hash(c)%4 == 0) {
+		// the transform runs once on the source as built (warming whatever the library remembers about it), the
+		// source is changed in place (palette cycling, a reused frame buffer), and the transform under test runs
+		if k, w, _ := checkOnce(c, true); k != "" {
+			return k, "second transform of the same source image value after it was changed in place: " + w, classes
+		}
+	}
+	return
+}
+
+func changeInPlace(b img.Built) {
+	if p, ok := img.Unwrap(b.Img).(*image.Paletted); ok {
+		for i := range p.Palette {
+			r, g, bl, a := p.Palette[i].RGBA()
+			p.Palette[i] = color.NRGBA64{R: uint16(bl) ^ 0x1357, G: uint16(r), B: uint16(g) ^ 0xFF00, A: uint16(a) | 0x8000}
+		}
+		return
+	}
+	for _, buf := range b.Bufs {
+		for i := range *buf {
+			(*buf)[i] ^= byte(0x5A + i%7)
+		}
+	}
+}
+
+func checkOnce(c Case, warmThenChange bool) (kind, what string, classes []string) {
 	apply, f := resolve(c.Transform)
 	var src, dst, srcCopy, model img.Built
 	if c.InPlace {
@@ -138,6 +165,14 @@ func check(c Case) (kind, what string, classes []string) {
 	dimg, ok := dst.Img.(draw.Image)
 	if !ok {
 		return "harness", "destination is not a draw.Image", nil
+	}
+	if warmThenChange {
+		scratch := img.Build(c.Dst)
+		if pn, msg := ev.Guard(func() { apply(scratch.Img.(draw.Image), src.Img, c.Par) }); pn {
+			return "panic", msg, nil
+		}
+		changeInPlace(src)
+		changeInPlace(srcCopy)
 	}
 	srcBefore := src.Snapshot()
 	if pn, msg := ev.Guard(func() { apply(dimg, src.Img, c.Par) }); pn {
